@@ -62,16 +62,17 @@ type Behaviour struct {
 const tickDur = time.Second
 
 type run struct {
-	t       *testing.T
-	b       Behaviour
-	s       *vsched.Sched
-	tr      *vtrace.Tracer
-	t0      time.Time
-	rng     *rand.Rand
-	pref    string
-	retry   map[string]bool
-	steps   int
-	maxStep int
+	t        *testing.T
+	b        Behaviour
+	s        *vsched.Sched
+	tr       *vtrace.Tracer
+	t0       time.Time
+	rng      *rand.Rand
+	pref     string
+	selCalls int
+	retry    map[string]bool
+	steps    int
+	maxStep  int
 	// wheel mode
 	tw       *queue.TimeWheel
 	wg       sync.WaitGroup
@@ -186,10 +187,10 @@ func (t target) Start(ctx context.Context, meta *module.MsgMetadata, from string
 	}
 	return delivery{}, nil
 }
-func (delivery) AddRcpt(context.Context, string, smtp.RcptOptions) error         { return nil }
-func (delivery) Body(context.Context, textproto.Header, buffer.Buffer) error     { return nil }
-func (delivery) Abort(context.Context) error                                     { return nil }
-func (delivery) Commit(context.Context) error                                    { return nil }
+func (delivery) AddRcpt(context.Context, string, smtp.RcptOptions) error     { return nil }
+func (delivery) Body(context.Context, textproto.Header, buffer.Buffer) error { return nil }
+func (delivery) Abort(context.Context) error                                 { return nil }
+func (delivery) Commit(context.Context) error                                { return nil }
 
 // ---------------------------------------------------------------- set-up
 
@@ -334,9 +335,12 @@ func (r *run) selOrder(g *vsched.G, n int) []int {
 	if r.b.Pol == "rand" {
 		return r.rng.Perm(n)
 	}
+	// rotate the starting case from call to call: a select that is polled in a
+	// loop must not be starved by a permanently ready case (Go's select is fair)
+	r.selCalls++
 	o := make([]int, n)
 	for i := range o {
-		o[i] = (i + r.b.SelRot) % n
+		o[i] = (i + r.b.SelRot + r.selCalls) % n
 	}
 	return o
 }
